@@ -328,7 +328,10 @@ func c16Visitor(x *engine.Exec, ent, class string, res Result, rec *model.Record
 		return
 	}
 	if len(rec.Evs) <= k {
-		engine.Fail("%s: fault position %d of %d not reached (%d events)", ent, k, E, len(rec.Evs))
+		// the producer delivered fewer events than in the dry run although no fault was injected yet: it behaves differently
+		// between two runs / feeding modes of the same input (C02's and C17's business); nothing was injected, nothing to judge
+		x.Count("fault_position_not_reached", 1)
+		return
 	}
 	fc := "at:" + failing.K.String()
 	if res.Err == nil {
